@@ -69,7 +69,7 @@ pub fn gen_set(r: &mut Rng, n_auth: usize, n_keys: usize, max_ts: u64, max: usiz
     (0..n)
         .map(|_| {
             let h = *r.pick(&[-1i64, 0, 1, 1, 2]);
-            json!({"a": 1 + r.below(n_auth), "k": key_json(KEYS[r.below(n_keys)]),
+            json!({"a": 1 + r.below(n_auth), "k": key_json(&crate::replica::pick_key(r, n_keys)),
                    "ts": 1 + r.below(max_ts as usize), "h": h, "len": if h == 0 {0} else {1}})
         })
         .collect()
@@ -180,7 +180,10 @@ pub fn gen_scenarios(r: &mut Rng, n: usize) -> Vec<Value> {
     (0..n)
         .map(|i| {
             let small = i % 3 == 0;
-            let (na, nk, mt, mx) = if small { (1, 4, 2, 3) } else if i % 3 == 1 { (2, 8, 3, 7) } else { (3, KEYS.len(), 5, 14) };
+            // every 10th scenario: big stores (deep recursion, many pivots)
+            let (na, nk, mt, mx) = if i % 10 == 9 { (3, KEYS.len(), 6, 60) } else if small { (1, 4, 2, 3) } else if i % 3 == 1 { (2, 8, 3, 7) } else { (3, KEYS.len(), 5, 14) };
+            let nextra = if nk >= 8 { 1 + r.below(4) } else { 0 };
+            crate::replica::reseed_extra_keys(r, nextra);
             let cfg = cfgs[r.below(cfgs.len())];
             let mut a0 = gen_set(r, na, nk, mt, mx);
             let b0 = gen_set(r, na, nk, mt, mx);
